@@ -34,6 +34,9 @@ CHECKS = {
  "C05": ("engine-b", "model_checking", B,
          "EDIF texts rendered by an independent writer (vlib/edif_writer.py) from abstract designs - base designs x rendering options (reference letter case, rename style, libraryRef present/omitted, comments, design reference case) x every permutation and every non-empty subset of the bits of each bus net, plus F_hier designs - and the bundled .edf examples (vs an independent s-expression reading) are parsed by the real reader; canonical structure incl. identifiers, original names, property types, member indices, bus merging and the top design must equal the abstract design; well-formedness",
          "bounded: 3 base designs, bus width 3, F_hier K1/K8 (quick) + K2/K5 (thorough), bundled files under a byte cap; trusted: the independent writer and s-expression reader; port base index is not compared (not in the statement)"),
+ "C03": ("engine-b", "model_checking", B,
+         "every netlist of the input space - API-built base designs x variants (undefined direction, reversed declaration order, bus base index 5 with pins listed in another order, 1-pin array ports, names needing rename, typed properties), the F_hier family incl. leaves declared after their users, and reader-built netlists (bundled .edf, independent-writer texts: idempotence) - is written by the real composer and read back by the real reader and by an independent s-expression interpreter; name-keyed canonical structures must agree",
+         "bounded: see coverage.bounds_completed; library/cell order and port base index not compared (not in the statement); trusted: vlib/canon.py, vlib/sexpr.py"),
 }
 m = {
  "version": 1,
